@@ -68,6 +68,8 @@ def run_world(world, idx=0, timeout=180, hashseed='0', extra_env=None, keep=Fals
         spec['preset'] = True
     if world.get('stdout_encoding'):
         spec['stdout_encoding'] = world['stdout_encoding']
+    if world.get('mkdirs'):
+        spec['mkdirs'] = world['mkdirs']
     if world.get('odd'):
         spec['odd'] = world['odd']
     if world.get('via'):
